@@ -136,8 +136,16 @@ impl List {
         let len = unsafe { self.0.read_len() };
 
         // determine if we need to grow the list then
-        // persist the value
+        // persist the value. The value is not part of the list yet,
+        // it has to survive the allocation of the bigger list
+        let grows = len + 1 > cap;
+        if grows {
+          hooks.push_root(value);
+        }
         let mut list = self.ensure_capacity(len + 1, cap, hooks);
+        if grows {
+          hooks.pop_roots(1);
+        }
 
         unsafe {
           list.0.write_value(value, len);
@@ -158,8 +166,16 @@ impl List {
         }
 
         // determine if we need to grow the list then
-        // persist the value
+        // persist the value. The value is not part of the list yet,
+        // it has to survive the allocation of the bigger list
+        let grows = len + 1 > cap;
+        if grows {
+          hooks.push_root(value);
+        }
         let mut list = self.ensure_capacity(len + 1, cap, hooks);
+        if grows {
+          hooks.pop_roots(1);
+        }
 
         unsafe {
           ptr::copy(
